@@ -271,6 +271,8 @@ def _apply(name, ns, is_np, a, p):
     if name == "vecdot":
         if is_np:
             _check_float_sum(a[0]), _check_float_sum(a[1])
+        if p.get("axis") is None:
+            return _fn(ns, "vecdot")(a[0], a[1])          # default axis (-1)
         return _fn(ns, "vecdot")(a[0], a[1], axis=p["axis"])
     if name == "where":
         return _fn(ns, "where")(a[0], a[1], a[2])
@@ -629,6 +631,9 @@ def _axis(rng, ndim, allow_none=True, allow_tuple=True, allow_neg=True):
     if allow_tuple and r < 0.45:
         k = rng.randint(1, ndim)
         ax = sorted(rng.sample(range(ndim), k))
+        if allow_neg and rng.random() < 0.35:
+            ax = [(a - ndim if rng.random() < 0.5 else a) for a in ax]
+            rng.shuffle(ax)
         return ax
     a = rng.randrange(ndim)
     if allow_neg and rng.random() < 0.25:
@@ -804,6 +809,8 @@ def g_take(g):
         return None
     v = g.val(x)
     ax = rng.randrange(v.ndim) if v.ndim > 1 or rng.random() < 0.7 else None
+    if ax is not None and rng.random() < 0.3:
+        ax -= v.ndim
     n = v.shape[ax] if ax is not None else v.size
     m = rng.randint(1, min(8, 2 * n))
     ind = [rng.randint(0, n - 1) for _ in range(m)]
@@ -839,7 +846,7 @@ def g_repeat(g):
     if x is None:
         return None
     v = g.val(x)
-    ax = _axis(rng, v.ndim, allow_none=rng.random() < 0.5, allow_tuple=False, allow_neg=False)
+    ax = _axis(rng, v.ndim, allow_none=rng.random() < 0.5, allow_tuple=False, allow_neg=True)
     return g.add("repeat", "repeat", [x], {"repeats": rng.choice([1, 2, 2, 3, 3, 4, 5]), "axis": ax})
 
 
@@ -909,7 +916,10 @@ def g_unstack(g):
         return None
     v = g.val(x)
     ax = rng.choice([d for d, s in enumerate(v.shape) if 0 < s <= 8])
-    return g.add("unstack", "unstack", [x], {"axis": ax, "which": rng.randrange(v.shape[ax])})
+    which = rng.randrange(v.shape[ax])
+    if rng.random() < 0.3:
+        ax -= v.ndim
+    return g.add("unstack", "unstack", [x], {"axis": ax, "which": which})
 
 
 def g_expand_dims(g):
@@ -920,6 +930,8 @@ def g_expand_dims(g):
     v = g.val(x)
     if rng.random() < 0.25 and v.ndim <= 2:
         ax = sorted(rng.sample(range(v.ndim + 2), 2))
+        if rng.random() < 0.4:
+            ax = [(a_ - (v.ndim + 2) if rng.random() < 0.5 else a_) for a_ in ax]
     else:
         ax = rng.randint(0, v.ndim)
         if rng.random() < 0.25:
@@ -936,6 +948,8 @@ def g_squeeze(g):
     ones = [d for d, s in enumerate(v.shape) if s == 1]
     k = rng.randint(1, len(ones))
     ax = sorted(rng.sample(ones, k))
+    if rng.random() < 0.3:
+        ax = [(a_ - v.ndim if rng.random() < 0.6 else a_) for a_ in ax]
     return g.add("squeeze", "squeeze", [x], {"axis": ax if (k > 1 or rng.random() < 0.3) else ax[0]})
 
 
@@ -949,6 +963,8 @@ def g_permute_dims(g):
         return g.add("permute_dims", "matrix_transpose", [x], {})
     axes = list(range(v.ndim))
     rng.shuffle(axes)
+    if rng.random() < 0.25:
+        axes = [(a_ - v.ndim if rng.random() < 0.5 else a_) for a_ in axes]
     return g.add("permute_dims", "permute_dims", [x], {"axes": axes})
 
 
@@ -1038,13 +1054,27 @@ def g_matmul(g):
     m = rng.randint(1, 6)
     if r < 0.2:
         shape = [k]
-    elif r < 0.75 or v.ndim < 3:
+    elif r < 0.6:
         shape = [k, m]
+    elif r < 0.8:
+        # the second operand carries (more) batch dims than the first: they broadcast from the end
+        nb_ = max(0, v.ndim - 2)
+        extra = rng.randint(1, 2) if nb_ < 2 else 0
+        batch = [rng.randint(1, 3) for _ in range(extra)] + [(1 if rng.random() < 0.3 else s) for s in v.shape[:nb_]]
+        shape = batch + [k, m if rng.random() < 0.5 else k]
+    elif v.ndim >= 3:
+        # fewer / broadcast batch dims on the second operand
+        keep = rng.randint(0, v.ndim - 2)
+        shape = [(1 if rng.random() < 0.4 else s) for s in v.shape[v.ndim - 2 - keep:v.ndim - 2]] + [k, m]
     else:
-        shape = [(1 if rng.random() < 0.4 else s) for s in v.shape[:-2]] + [k, m]
+        shape = [k, k]
     y = g.operand_like(shape, v.dtype, fresh_p=0.7)
     if y is None:
         return None
+    if rng.random() < 0.25:
+        r2 = g.add("matmul", "matmul", [y, x], {})   # operands swapped when the shapes allow it
+        if r2 is not None:
+            return r2
     return g.add("matmul", "matmul", [x, y], {})
 
 
@@ -1067,6 +1097,9 @@ def g_tensordot(g):
         rng.shuffle(perm)
         shape = [shape[i] for i in perm]
         ya = [perm.index(i) for i in range(nc)]
+        if rng.random() < 0.4:
+            xa = [(a_ - v.ndim if rng.random() < 0.5 else a_) for a_ in xa]
+            ya = [(a_ - len(shape) if rng.random() < 0.5 else a_) for a_ in ya]
         axes = [xa, ya]
     y = g.operand_like(shape, v.dtype, fresh_p=0.8)
     if y is None:
@@ -1090,22 +1123,57 @@ def g_outer(g):
     return g.add("outer", "outer", [x, y], {})
 
 
+def _square_input(g, ndim, dtype=None):
+    """A fresh input whose trailing dims are equal (so that contracting the wrong axis gives a wrong value, not an
+    error), with non-symmetric distinct-valued data."""
+    rng = g.rng
+    n = rng.randint(2, 5)
+    shape = [rng.randint(1, 3) for _ in range(max(0, ndim - 2))] + [n] * min(ndim, 2)
+    return g.new_input(shape, dtype=dtype or g.rand_dtype("iufc"), data="perm:%d" % rng.randint(0, 99))
+
+
 def g_vecdot(g):
+    """vecdot(x1, x2, axis): the (negative) axis is counted from the END of each operand, the remaining batch
+    dimensions broadcast; operands of equal rank, x1 lower, or x2 lower."""
     rng = g.rng
     x = g.pick(lambda v, n: v.ndim >= 1 and v.dtype.kind in "iufc")
+    if x is None or rng.random() < 0.35:
+        y0 = _square_input(g, rng.choice([1, 2, 2, 3, 3]))
+        x = y0 if y0 is not None else x
     if x is None:
         return None
     v = g.val(x)
-    ax = rng.randrange(-v.ndim, 0)
-    shape = list(v.shape)
-    if rng.random() < 0.3:
-        for d in range(len(shape)):
-            if d != ax + v.ndim and rng.random() < 0.4:
+    r = rng.random()
+    if r < 0.4:
+        # equal rank, possibly broadcasting batch dims
+        ax = rng.randrange(-v.ndim, 0)
+        shape = list(v.shape)
+        if rng.random() < 0.4:
+            for d in range(len(shape)):
+                if d != ax + v.ndim and rng.random() < 0.4:
+                    shape[d] = 1
+    elif r < 0.75 and v.ndim >= 2:
+        # the other operand has fewer dimensions: keep the trailing `m` dims
+        m = rng.randint(1, v.ndim - 1)
+        ax = rng.randrange(-m, 0)
+        shape = list(v.shape[v.ndim - m:])
+        for d in range(m):
+            if d != ax + m and rng.random() < 0.25:
                 shape[d] = 1
-    y = g.operand_like(shape, v.dtype, fresh_p=0.7)
+    else:
+        # the other operand has more dimensions: extra leading batch dims
+        extra = rng.randint(1, 2) if v.ndim <= 2 else 1
+        ax = rng.randrange(-v.ndim, 0)
+        shape = [rng.randint(1, 3) for _ in range(extra)] + list(v.shape)
+        for d in range(extra, len(shape)):
+            if d - extra != ax + v.ndim and rng.random() < 0.2:
+                shape[d] = 1
+    y = g.operand_like(shape, v.dtype, fresh_p=0.75)
     if y is None:
-        y = x
-    return g.add("vecdot", "vecdot", [x, y], {"axis": ax})
+        return None
+    ins = [x, y] if rng.random() < 0.5 else [y, x]
+    axp = None if (ax == -1 and rng.random() < 0.4) else ax
+    return g.add("vecdot", "vecdot", ins, {"axis": axp})
 
 
 def g_where(g):
@@ -1123,7 +1191,8 @@ def g_where(g):
     y = g.operand_like(_broadcast_variant(g, v.shape), v.dtype, fresh_p=0.5)
     if y is None:
         y = x
-    return g.add("where", "where", [c, x, y], {})
+    ins = [c, x, y] if rng.random() < 0.6 else [c, y, x]
+    return g.add("where", "where", ins, {})
 
 
 def _bc(s1, s2):
